@@ -111,6 +111,17 @@ def make_env(P, servertype, commtimeout, linger=30.0, pool=(2, 40)):
             world.hook_failures += 1
             raise RuntimeError("application disconnect hook failed for connection %s" % getattr(conn, "_vserial", None))
     fx.daemon.on_disconnect = failing_hook
+    # observation only: note, per connection, that the daemon's request handling gave up with a (server-side) timeout
+    world.timeouts = {}
+    inner = fx.daemon.handleRequest
+
+    def observed_handle_request(conn):
+        try:
+            return inner(conn)
+        except P.errors.TimeoutError:
+            world.timeouts.setdefault(getattr(conn, "_vserial", None), time.monotonic())
+            raise
+    fx.daemon.handleRequest = observed_handle_request
     return fx, world
 
 
@@ -207,6 +218,7 @@ def run_case(fx, world, c, rec, r, sername):
     ent = world.entry(serial)
     req = wire.encode(wire.INVOKE, 0, 9, ser.serializer_id, ser.dumpsCall("svc", "noop", ("p" * 30,), {}))
     e = c["ending"]
+    still_open = None
     try:
         if e == "offset":
             if c["offset"]:
@@ -243,11 +255,13 @@ def run_case(fx, world, c, rec, r, sername):
             rec.count("callback_endings")
         elif e == "timeout":
             v.send(req[:c["offset"]])
-            # stall: the server-side COMMTIMEOUT must expire
-            closed = v.expect_eof(P.config.COMMTIMEOUT * 8 + 6.0)
-            if closed is not True:
-                rec.inconc("server did not time the stalled connection out within the watchdog (closed=%r)" % (closed,))
-            v.close()
+            # stall: the server-side COMMTIMEOUT must expire. The ending is the server's doing: once its request handling has given up on
+            # the connection with a timeout (observed), the cleanup is due, with the client's socket still open
+            if not fx.wait_until(lambda: serial in world.timeouts, P.config.COMMTIMEOUT * 8 + 6.0):
+                rec.inconc("the server's request handling did not time out on the stalled connection within the watchdog")
+                v.close()
+                return
+            still_open = v
             rec.count("timeout_endings")
     except Exception as x:
         rec.inconc("ending could not be applied: %r" % (x,))
@@ -266,6 +280,8 @@ def run_case(fx, world, c, rec, r, sername):
         else:
             rec.violation("slot-not-released", "connection %d ended by %s: worker/selector slot not released within 10 s (live=%s, expected %s)" % (
                 serial, describe(c), fx.live_connection_count(), base_live + len(witnesses)), pay)
+        if still_open is not None:
+            still_open.close()
         cleanup(witnesses)
         return
     # the hook runs (and the selector slot is given up) just before the connection object is closed: give that last step its bounded time too
@@ -341,6 +357,10 @@ def run_case(fx, world, c, rec, r, sername):
     else:
         rec.count("ending_ok")
         rec.count("resources_closed_once", len(ent["tracked"]))
+    if still_open is not None:
+        if not bad and still_open.expect_eof(5.0) is not True:
+            rec.violation("timed-out-connection-not-ended-for-client", "connection %d was timed out by the server, but its client saw no end of stream within 5 s" % serial, pay)
+        still_open.close()
     # witnesses end orderly: same accounting
     for w, ws in witnesses:
         w.close()
